@@ -87,8 +87,10 @@ impl UtpEnvironment for SimEnv {
         if let (Some(Value::String(l)), Some(Value::String(r))) = (m.get("local"), m.get("remote")) {
             let lr = format!("{l}|{r}");
             let rl = format!("{r}|{l}");
+            let v6 = l.starts_with('[');
             m.insert("lr".into(), json!(lr));
             m.insert("rl".into(), json!(rl));
+            m.insert("v6".into(), json!(v6));
         }
         self.tracer.emit(ev.kind, m);
     }
